@@ -42,7 +42,7 @@ def maxDepthFrom (d m : Nat) : List Raw → Nat
 def maxDepth (evs : List Raw) : Nat := maxDepthFrom 0 0 evs
 
 /-- a key node that is the merge key: plain, untagged scalar `<<` -/
-def isMergeKeyNode : Node → Bool
+def isMergeKeyTree : Node → Bool
   | .scalar v st _ t => t.isNone && st == .plain && v == ['<', '<']
   | _ => false
 
@@ -58,7 +58,7 @@ def mergeKeysL : List Node → Nat
   | n :: ns => mergeKeys n + mergeKeysL ns
 def mergeKeysE : List (Node × Node) → Nat
   | [] => 0
-  | (k, v) :: es => (if isMergeKeyNode k then 1 else 0) + mergeKeys k + mergeKeys v + mergeKeysE es
+  | (k, v) :: es => (if isMergeKeyTree k then 1 else 0) + mergeKeys k + mergeKeys v + mergeKeysE es
 end
 
 def mergeKeysDocs : List Node → Nat
